@@ -547,16 +547,39 @@ func (nopHandler) HandleXMPP(xmlstream.TokenReadEncoder, *xml.StartElement) erro
 }
 
 type iqResponder struct {
-	r xml.TokenReader
-	c chan xmlstream.TokenReadCloser
+	r     xml.TokenReader
+	c     chan xmlstream.TokenReadCloser
+	state *iqResponderState
+}
+
+type iqResponderState struct {
+	once sync.Once
+	err  error
 }
 
 func (r iqResponder) Token() (xml.Token, error) {
-	return r.r.Token()
+	if r.state.err != nil {
+		return nil, r.state.err
+	}
+	tok, err := r.r.Token()
+	if err != nil && err != io.EOF {
+		// The input stream broke (or ended) in the middle of the response, so
+		// nothing more can be read from it: remember the error and release the
+		// session right away.
+		// Callers that give up at the first error never get around to closing the
+		// response (eg. xmlstream.Iter.Close does not close the underlying reader
+		// if draining it fails) and Serve would wait for them forever.
+		r.state.err = err
+		/* #nosec */
+		r.Close()
+	}
+	return tok, err
 }
 
 func (r iqResponder) Close() error {
-	close(r.c)
+	r.state.once.Do(func() {
+		close(r.c)
+	})
 	return nil
 }
 
@@ -613,8 +636,9 @@ func handleInputStream(s *Session, handler Handler) (err error) {
 			inner := xmlstream.Inner(r)
 			select {
 			case readerChan.c <- iqResponder{
-				r: xmlstream.Wrap(inner, start),
-				c: readerChan.c,
+				r:     xmlstream.Wrap(inner, start),
+				c:     readerChan.c,
+				state: &iqResponderState{},
 			}:
 				<-readerChan.c
 				// Consume the rest of the stream before continuing the loop.
